@@ -110,7 +110,9 @@ def new_record(self: "ProvBundle", record_type: "QN", identifier: "Val",
                                        and result._identifier.uri == as_qn(identifier).uri))
     ensures("anonymous", implies(is_none(identifier), result._identifier is None))
     ensures("nf", NF(result) and IdOK(result))
-    ensures("bundle-inv", BundleInv(self))
+    ensures("index", Idx(self))
+    ensures("records-ok", RecordsOK(self))
+    ensures("namespaces-inv", NSM_Inv(self._namespaces))
     ensures("existing-records-untouched", forall(lambda r: implies(old(allocated(r)), same(r._attributes, old(r._attributes))
                                                                    and same(r._identifier, old(r._identifier))
                                                                    and same(r._bundle, old(r._bundle))), "ProvRecord"))
